@@ -133,6 +133,20 @@ def _fill_loops(fn):
     return n
 
 
+def _into_as_from(fn):
+    """`x.into()` through the blanket `impl<T, U: From<T>> Into<U> for T` is `U::from(x)`: the call is renamed to the `From` impl it runs"""
+    n = 0
+    for b in fn["blocks"]:
+        t = b["term"]
+        if t.get("t") == "call" and _res(t) == "<T as core::convert::Into<U>>::into" and len(t.get("gargs") or []) == 2 and len(t["args"]) == 1:
+            T, U = t["gargs"]
+            t["callee"] = "core::convert::From::from"
+            t["resolved"] = "<%s as core::convert::From<%s>>::from" % (U, T)
+            t["gargs"] = [U, T]
+            n += 1
+    return n
+
+
 def run(d):
     out = []
     for fn in d["fns"]:
@@ -142,4 +156,7 @@ def run(d):
             k = 0
         if k:
             out.append((fn["path"], "fill", k))
+        k = _into_as_from(fn)
+        if k:
+            out.append((fn["path"], "into() as From::from", k))
     return out
